@@ -86,8 +86,8 @@ def handle (args : List String) : String :=
   | mode :: pol :: sp :: sd :: w0 :: w1 :: evs =>
     match parsePats sp, parseTriples sd, parseWin w0, parseWin w1, evs.mapM parseSEv with
     | some spats, some sdata, some a, some b, some sevs =>
-      -- a trailing `r` only changes the order in which the blocks are written in the query text
-      let pol := if pol.endsWith "r" then (pol.dropEnd 1).toString else pol
+      -- trailing `r` / `n` only change how the query text is written (block order, stream names)
+      let pol := String.ofList (pol.toList.filter fun c => c != 'r' && c != 'n')
       let policy? : Option Policy := match pol with
         | "W" => some .wait | "X" => some .steal | "TS" => some .wait | "TD" => some .wait | _ => none
       match policy? with
